@@ -651,7 +651,7 @@ UNITS = [
          replay=REPLAY_SKIP, note="operator=(Initializer): state is a function of (seed[0], subsequence, offset) only: seed -> subsequence -> offset"),
     Unit("c13_ctor", build_ctor, "h_ctor", enforce="XE_ctor", timeout=120, must_have=[r"XE_ctor.postcondition", r"celer_expect"], checks=["--bounds-check", "--pointer-check"],
          note="engine constructor binds slot tid of the state collection"),
-    Unit("c13_reseed", build_reseed, "h_reseed", enforce="reseed_rng", replace=["XE_ctor", "XE_assign_init"], loop_contracts=True, timeout=300, backend="z3",
+    Unit("c13_reseed", build_reseed, "h_reseed", enforce="reseed_rng", replace=["XE_ctor", "XE_assign_init"], loop_contracts=True, timeout=300, backend=["z3", "cvc5", "kissat"],
          must_have=[r"reseed_rng.postcondition", r"loop_invariant_step", r"XE_ctor.precondition"],
          checks=["--bounds-check", "--pointer-check"],
          assumptions=["event_id * slots + slot does not wrap 64 bits (not excluded by the code; injectivity of the stream index under that condition is a paper lemma)", "OpenMP-parallel iterations treated sequentially"],
